@@ -12,6 +12,10 @@ func init() { register("C04", propC04) }
 type hsSpec struct {
 	A, B          epCfg
 	SNAP          bool
+	// SnapTok: the out-of-band tokens are generated with these configurations instead of A / B
+	// (an application that builds its token once and creates the association with other
+	// options): what the peer was told in the token is what counts
+	SnapTok *[2]epCfg
 	DelayA        time.Duration // start delay of each side
 	DelayB        time.Duration
 	Faults        faultSet
@@ -158,7 +162,9 @@ func hsScenario(spec *hsSpec) *Scenario {
 			}
 		},
 		Body: func(m *Sim) {
-			if spec.SNAP {
+			if spec.SNAP && spec.SnapTok != nil {
+				m.snapConnect(spec.A, spec.B, spec.SnapTok[0], spec.SnapTok[1])
+			} else if spec.SNAP {
 				m.snapConnect(spec.A, spec.B)
 			} else {
 				ta := m.Go("connA", func() {
@@ -214,7 +220,14 @@ func hsScenario(spec *hsSpec) *Scenario {
 				return
 			}
 			m.W.faultsOn = false
-			checkMetadata(m, spec.A, spec.B)
+			if spec.SnapTok != nil {
+				// interleaving is what the tokens offered; the zero-checksum expectations stay with A / B
+				ta, tb := spec.A, spec.B
+				ta.NoInterleave, tb.NoInterleave = spec.SnapTok[0].NoInterleave, spec.SnapTok[1].NoInterleave
+				checkMetadata(m, ta, tb)
+			} else {
+				checkMetadata(m, spec.A, spec.B)
+			}
 			if m.probe("probe", 1, 0) {
 				// let every handshake timer that might have been left armed run out, then probe again
 				sa, sb := m.streamsSeen[0], m.streamsSeen[1]
@@ -319,6 +332,9 @@ func hsScenario(spec *hsSpec) *Scenario {
 				o.Snap = true
 				o.SnapZC = [2]bool{spec.A.ZeroChecksum, spec.B.ZeroChecksum}
 				o.SnapIL = [2]bool{!spec.A.NoInterleave, !spec.B.NoInterleave}
+				if spec.SnapTok != nil {
+					o.SnapIL = [2]bool{!spec.SnapTok[0].NoInterleave, !spec.SnapTok[1].NoInterleave}
+				}
 			}
 			f := runWireMonitors(m, x, o)
 			// an endpoint whose connect call has returned successfully is established: it must
@@ -392,8 +408,12 @@ func (m *Sim) closeFailedTransports() {
 }
 
 // snapConnect establishes both sides from exchanged out-of-band tokens.
-func (m *Sim) snapConnect(ca, cb epCfg) {
+func (m *Sim) snapConnect(ca, cb epCfg, tokCfg ...epCfg) {
 	cfg := [2]epCfg{ca, cb}
+	tcfg := cfg
+	if len(tokCfg) == 2 {
+		tcfg = [2]epCfg{tokCfg[0], tokCfg[1]}
+	}
 	var tok [2][]byte
 	for i := 0; i < 2; i++ {
 		tag := cfg[i].Tag
@@ -402,7 +422,7 @@ func (m *Sim) snapConnect(ca, cb epCfg) {
 		}
 		m.Rand.push(cfg[i].InitTSN, tag)
 		var co []ClientOption
-		for _, o := range m.options(i, cfg[i]) {
+		for _, o := range m.options(i, tcfg[i]) {
 			co = append(co, o.(ClientOption))
 		}
 		t, err := GenerateOutOfBandToken(co...)
